@@ -1,7 +1,7 @@
 (* C12 — statements only.  Every theorem is proved in Lemmas.v. *)
 From Coq Require Import ZArith List Bool String.
 Import ListNotations.
-From GV Require Import Common.Wire gen.Gen_tables gen.Gen_versioned C12.Model C12.Lemmas C12.GenLink.
+From GV Require Import Common.Wire gen.Gen_tables gen.Gen_versioned gen.Gen_dispatch C12.Model C12.Lemmas C12.GenLink C12.GenEquiv C12.GenTheorems.
 Open Scope Z_scope.
 
 (* VersionedDict: for every sequence of operations (valid or invalid assignments, reads): stored versions of each key are
@@ -96,3 +96,178 @@ Theorem generated_guard_spec : forall (has : Z -> bool) (ver : Z),
   vd_setitem_guard has ver = 0%Z <-> (1 <= ver)%Z /\ (ver = 1%Z \/ has (ver - 1)%Z = true) /\ has ver = false.
 Proof. exact GenLink.generated_guard_spec. Qed.
 Print Assumptions generated_guard_spec.
+
+(* ---- round 5: the dispatch and lookup logic of glue/core/state.py TRANSLATED statement by statement (tools/gen/gen_dispatch.py ->
+   coq/gen/Gen_dispatch.v, regenerated on every run): equivalence with the hand model, and the theorems about the translated definitions ---- *)
+
+Theorem gstep_eq : forall o d op_, (forall ver, py_int o (raw_of ver) = ver) -> gstep o d op_ = step d op_.
+Proof. exact GenEquiv.gstep_eq. Qed.
+Print Assumptions gstep_eq.
+
+Theorem grun_eq : forall o ops_ d, (forall ver, py_int o (raw_of ver) = ver) -> grun o d ops_ = run d ops_.
+Proof. exact GenEquiv.grun_eq. Qed.
+Print Assumptions grun_eq.
+
+Theorem loop_resolve : forall o ps, path_patches o = patch_table ps -> forall fuel nm,
+  lookup_class_with_patches_loop1 o fuel nm =
+  match resolve_in ps fuel nm with Some t => Next t | None => Done OutOfFuel end.
+Proof. exact GenEquiv.loop_resolve. Qed.
+Print Assumptions loop_resolve.
+
+Theorem lookup_class_with_patches_spec : forall o ps, path_patches o = patch_table ps -> forall fuel nm,
+  lookup_class_with_patches o fuel nm =
+  match resolve_in ps fuel nm with Some t => lookup_class o t | None => OutOfFuel end.
+Proof. exact GenEquiv.lookup_class_with_patches_spec. Qed.
+Print Assumptions lookup_class_with_patches_spec.
+
+Theorem gen_resolve_in_eq : forall ps fuel nm,
+  gen_resolve_in ps fuel nm = match resolve_in ps fuel nm with Some t => Ret t | None => OutOfFuel end.
+Proof. exact GenEquiv.gen_resolve_in_eq. Qed.
+Print Assumptions gen_resolve_in_eq.
+
+Theorem saver_spec : forall o c raw val d,
+  saver o c raw val d =
+  (fst (step d (SetItem c (py_int o raw) val)),
+   match snd (step d (SetItem c (py_int o raw) val)) with
+   | RNone => Ret val | RValueError => Raise ValueError | _ => Raise KeyError end).
+Proof. exact GenEquiv.saver_spec. Qed.
+Print Assumptions saver_spec.
+
+Theorem loader_spec : forall o c raw val d,
+  loader o c raw val d =
+  (fst (step d (SetItem c (py_int o raw) val)),
+   match snd (step d (SetItem c (py_int o raw) val)) with
+   | RNone => Ret val | RValueError => Raise ValueError | _ => Raise KeyError end).
+Proof. exact GenEquiv.loader_spec. Qed.
+Print Assumptions loader_spec.
+
+Theorem ser_dispatch_spec : forall o obj d,
+  ser_dispatch o obj d =
+  (d, if hasattr_ o obj "__gluestate__" then Ret (getattr_ o (py_type o obj) "__gluestate__", 1)
+      else match save_lookup d (mro o (py_type o obj)) with
+           | None => Raise GlueSerializeError
+           | Some (_, x) => oc_of_newest x
+           end).
+Proof. exact GenEquiv.ser_dispatch_spec. Qed.
+Print Assumptions ser_dispatch_spec.
+
+Theorem ser_do_spec : forall o obj d w,
+  isinstance_ o obj "str" = false -> in_global o "literals" (py_type o obj) = false ->
+  in_global o "builtin_iterables" (py_type o obj) && flat_literals o obj = false ->
+  set_contains obj w = false ->
+  ser_do o obj d w =
+  match snd (ser_dispatch o obj d) with
+  | Ret (f, v) => (d, w, Ret (PRec (stamp o obj v (call_saver o f obj))))
+  | Raise e => (d, set_add obj w, Raise e)
+  | OutOfFuel => (d, set_add obj w, OutOfFuel)
+  end.
+Proof. exact GenEquiv.ser_do_spec. Qed.
+Print Assumptions ser_do_spec.
+
+Theorem unser_dispatch_spec : forall o ps fuel rc d c,
+  path_patches o = patch_table ps -> sd_getitem "_type" rc = Some c ->
+  unser_dispatch o fuel rc d =
+  match resolve_in ps fuel c with
+  | None => (d, OutOfFuel)
+  | Some nm =>
+    match lookup_class o nm with
+    | Ret typ =>
+        if typ =? py_None then (d, Raise GlueSerializeError)
+        else if hasattr_ o typ "__setgluestate__" then (d, Ret (getattr_ o typ "__setgluestate__"))
+        else let w := load_walk d (mro o typ) (sd_get "_protocol" 1 rc) in
+             (fst w, match snd w with Some (_, x) => Ret x | None => Raise GlueSerializeError end)
+    | Raise e => (d, Raise e)
+    | OutOfFuel => (d, OutOfFuel)
+    end
+  end.
+Proof. exact GenEquiv.unser_dispatch_spec. Qed.
+Print Assumptions unser_dispatch_spec.
+
+Theorem grun_reg_ops_eq : forall cl ops_ sv lv, wf sv -> loads_ok ops_ ->
+  grun_reg_ops (reg_ops cl) sv lv ops_ = run_reg_ops cl sv lv ops_.
+Proof. exact GenEquiv.grun_reg_ops_eq. Qed.
+Print Assumptions grun_reg_ops_eq.
+
+Theorem gen_saver_of_in_eq : forall sv cl c, rows_nonempty sv -> find_cls_in cl (c_id c) = Some c ->
+  gen_saver_of_in sv cl c = enc_saver (saver_of_in sv c).
+Proof. exact GenTheorems.gen_saver_of_in_eq. Qed.
+Print Assumptions gen_saver_of_in_eq.
+
+Theorem gen_loader_of_in_eq : forall lv cl c v, find_cls_in cl (c_id c) = Some c -> c_id c <> py_None -> 1 <= v ->
+  gen_loader_of_in lv cl c v = enc_loader (loader_of_in lv c v).
+Proof. exact GenTheorems.gen_loader_of_in_eq. Qed.
+Print Assumptions gen_loader_of_in_eq.
+
+Theorem gen_saver_of_eq : forall c, In c classes -> gen_saver_of c = enc_saver (saver_of c).
+Proof. exact GenTheorems.gen_saver_of_eq. Qed.
+Print Assumptions gen_saver_of_eq.
+
+Theorem gen_loader_of_eq : forall c v, In c classes -> 1 <= v -> gen_loader_of c v = enc_loader (loader_of c v).
+Proof. exact GenTheorems.gen_loader_of_eq. Qed.
+Print Assumptions gen_loader_of_eq.
+
+Theorem gen_versions_consecutive_write_once : forall (o : ops) (ops_ : list op),
+  (forall ver, py_int o (raw_of ver) = ver) ->
+  let d := fst (grun o vd_init ops_) in
+  (forall k vs, dd_lookup k d = Some vs -> map fst vs = zseq 1 (List.length vs))
+  /\ (forall pre post k v x, ops_ = pre ++ post -> stored (fst (grun o vd_init pre)) k v = Some x -> stored d k v = Some x)
+  /\ (forall k vs, dd_lookup k d = Some vs -> vs <> [] ->
+        exists x, stored d k (Z.of_nat (List.length vs)) = Some x
+                  /\ vd_getitem o k d = (d, Ret (x, Z.of_nat (List.length vs)))).
+Proof. exact GenTheorems.gen_versions_consecutive_write_once. Qed.
+Print Assumptions gen_versions_consecutive_write_once.
+
+Theorem gen_save_uses_newest_at_every_moment : forall (o : ops) (ops_ : list op) obj f v,
+  (forall ver, py_int o (raw_of ver) = ver) ->
+  let d := fst (grun o vd_init ops_) in
+  hasattr_ o obj "__gluestate__" = false ->
+  snd (ser_dispatch o obj d) = Ret (f, v) ->
+  fst (ser_dispatch o obj d) = d /\
+  exists pre t post vs, mro o (py_type o obj) = pre ++ t :: post /\ (forall t', In t' pre -> dd_contains t' d = false)
+    /\ dd_lookup t d = Some vs /\ v = Z.of_nat (List.length vs) /\ stored d t v = Some f
+    /\ (forall v' x', stored d t v' = Some x' -> v' <= v).
+Proof. exact GenTheorems.gen_save_uses_newest_at_every_moment. Qed.
+Print Assumptions gen_save_uses_newest_at_every_moment.
+
+Theorem gen_patches_terminate : forall nm, exists t, gen_resolve nm = Ret t /\ d_contains t (patch_table patches) = false.
+Proof. exact GenTheorems.gen_patches_terminate. Qed.
+Print Assumptions gen_patches_terminate.
+
+Theorem gen_patches_fuel_bound : forall nm fuel, (List.length patches <= fuel)%nat ->
+  gen_resolve_in patches fuel nm = gen_resolve nm.
+Proof. exact GenTheorems.gen_patches_fuel_bound. Qed.
+Print Assumptions gen_patches_fuel_bound.
+
+Theorem gen_patch_targets_in_package_resolve : forall p, In p patches ->
+  exists t row, gen_resolve (p_from p) = Ret t /\ In row targets /\ t_name row = t /\
+                (t_in_glue row = true -> t_importable row = true).
+Proof. exact GenTheorems.gen_patch_targets_in_package_resolve. Qed.
+Print Assumptions gen_patch_targets_in_package_resolve.
+
+Theorem gen_save_uses_newest : forall c f v, In c classes -> gen_saver_of c = Ret (f, v) ->
+  (exists p, c_gs c = Some p /\ f = meth_id p /\ v = 1) \/
+  (exists t vs, f = fid t v /\ saver_versions t = Some vs /\ In v vs /\ (forall v', In v' vs -> v' <= v)).
+Proof. exact GenTheorems.gen_save_uses_newest. Qed.
+Print Assumptions gen_save_uses_newest.
+
+Theorem gen_every_saver_has_loader : forall r v, In r savers -> In v (s_versions r) ->
+  In (s_cls r) write_only \/
+  exists rc, gen_written (s_cls r) v = Ret (PRec rc) /\ sd_get "_type" (-1) rc = s_cls r /\ sd_get "_protocol" 1 rc = v /\
+             snd (unser_dispatch full_ops (List.length patches) rc (reg_of_loaders loaders)) = Ret (fid (s_cls r) v).
+Proof. exact GenTheorems.gen_every_saver_has_loader. Qed.
+Print Assumptions gen_every_saver_has_loader.
+
+Theorem gen_registrations_replay :
+  exists sv lv, replay full_ops registrations vd_init vd_init = Some (sv, lv)
+    /\ version_lists sv = map (fun r => (s_cls r, s_versions r)) savers
+    /\ version_lists lv = map (fun r => (l_cls r, l_versions r)) loaders.
+Proof. exact GenTheorems.gen_registrations_replay. Qed.
+Print Assumptions gen_registrations_replay.
+
+Theorem vd_delitem_spec : forall o k d, vd_delitem o k d = (d, Raise ValueError).
+Proof. exact GenEquiv.vd_delitem_spec. Qed.
+Print Assumptions vd_delitem_spec.
+
+Theorem load_walk_stored : forall mro_ d v k v', stored (fst (load_walk d mro_ v)) k v' = stored d k v'.
+Proof. exact GenEquiv.load_walk_stored. Qed.
+Print Assumptions load_walk_stored.
